@@ -72,6 +72,8 @@ LOCS = [
     "match s:\n    case 1:\n        f(\"\"\"a\nb\"\"\", [\n            c, d])\n    case 2:\n        x = '''é\n  ü'''; y = (1,\n          2)",
     "def f():\n    s = \"\"\"x\ny\"\"\" + g(a,\n              b)\n    return s",
     "try:\n    pass\nexcept E:\n    t = '''1\n2''', [3,\n        4]",
+    "names = ('é', b, c,)\nm = ['ü', d, e, ]\nk = {'ß': 1, 'x': 2, }\nf('é', g, h,)",
+    "del á, b, c\nglobal é, x, y\nimport ñ, o, p\nwith ü as v, w as z,: pass" if False else "del á, b, c\nglobal é, x, y\nimport ñ, o, p",
 ]
 PROGS = BASE + EXTRA + TRICKY + PARS + LOCS
 for _p in PROGS:
